@@ -741,6 +741,13 @@ func robustStream(r *Run) {
 		}
 	}
 
+	// (1a') loop modifiers that are numbers but not integers, written as literals: fractions below one, halves, huge and tiny floats
+	for _, mod := range []string{"cols", "limit", "offset"} {
+		for _, val := range []string{"0.5", "0.25", "0.999", "1.5", "-0.5", "1e-300", "0.0", "2.0", "1e300", "9223372036854775807.0", "-1e300"} {
+			run(plain, "{% tablerow x in (1..3) "+mod+": "+val+" %}{{ x }}{% endtablerow %}|{% for x in (1..3) "+strings.Replace(mod, "cols", "limit", 1)+": "+val+" %}{{ x }}{% endfor %}", map[string]*V{}, "float-modifiers")
+		}
+	}
+
 	// (1b) the range boundary family (pure templates): extreme endpoints, and lengths around the
 	// array-conversion bound, converted to arrays by filters or iterated lazily by loops
 	const maxI, minI = "9223372036854775807", "-9223372036854775808"
